@@ -317,7 +317,7 @@ def hole_canon(h, aux):
         return ('cyc', canon_cycle(ks))
     if h[0] == 'B':
         nw, se = h[2], h[3]
-        z = nw[2] or se[2] or None
+        z = nw[2] if nw[2] is not None else se[2]       # repo fix 68e2a82: a Z of 0.0 is kept
         ks = [ckey(nw), ckey((nw[0], se[1], z, None)), ckey(se), ckey((se[0], nw[1], z, None))]
         return ('cyc', canon_cycle(ks))
     ks = aux.bc.get(repr(h))
